@@ -5,9 +5,12 @@
   target is an error, the target and annotation gates, the key rewriting of namespaced maps, and
   the desugaring of a namespaced map: the same reading as the plain map over the same body with
   every key passed through the qualification before the duplicate check.
+  Document level (`*_document`, Proofs/RejectDocClj*.lean): which error `edn_read` reports for
+  each of these defects inside any well-formed open context, a discarded form included.
 -/
 import Edn.Proofs.MetaMerge
 import Edn.Proofs.NsMap
+import Edn.Proofs.RejectDocClj
 
 namespace Edn.Properties.C19
 open Edn.Model Edn.Spec Edn.Proofs
@@ -113,5 +116,207 @@ theorem metadata_annotation_gate (ctx : Ctx) (f d : Nat) (dm : Bool) (start : Na
     (h : readValue ctx f (d + 1) dm st = .ok m st') (hm : metaEntries m = none) :
     readMeta ctx (f + 1) d dm start st = .err (mkErr .invalidSyntax (some start) (some st'.rest.length)) st' :=
   meta_annotation_gate ctx f d dm start st st' m h hm
+
+/-! ## document level: the class of each Clojure-extension defect, in any open context
+
+  For every configuration with the Clojure flag and no reader registry.  `pre` is a well-formed
+  *open context* (`DescClj cfg s c 0 false pre d dm`: blanks, comments, complete discarded forms,
+  open discard markers, tags, `^` / `^annotation` markers, and - when `c = true` - opened
+  collections and namespaced maps holding complete forms of the configuration's grammar), the
+  defect `s` follows at offset `pre.length`, and the theorems give the code and the range of the
+  error `edn_read` reports for `pre ++ s`.  Metadata markers and namespaced maps count as
+  nesting levels. -/
+
+open Edn.Proofs.RejectDoc Edn.Proofs.RejectDocX Edn.Proofs.RejectDocClj Edn.Proofs.Cmpl in
+/-- **the first defect decides the class** (Clojure flag): an error raised right after a
+    well-formed open context is the error of the document - any error through a flat context, any
+    error but UNEXPECTED_EOF when collections are open -/
+theorem first_defect_decides_document (cfg : Cfg) (hclj : cfg.clj = true) (opts : Opts) (hreg : opts.registry = none)
+    {s : Bytes} {c : Bool} {pre : Bytes} {d : Nat} {dm : Bool}
+    (h : DescClj cfg s c 0 false pre d dm) (e : ErrInfo) (r : Bytes)
+    (hs : SiteErrX cfg opts d dm s e r) (hc : c = false ∨ e.code ≠ .unexpectedEof) (hf : e.fuelOut = false)
+    (hn : (e.code == .unexpectedEof && e.eofTop && opts.eofValue) = false) :
+    (read cfg opts (pre ++ s)).out =
+      .error e.code (posOf (pre ++ s) ((pre ++ s).length - e.es.getD r.length))
+        (posOf (pre ++ s) ((pre ++ s).length - e.ee.getD r.length)) :=
+  docClj_err cfg hclj opts hreg h e r hs hc hf hn
+
+open Edn.Proofs.RejectDoc Edn.Proofs.RejectDocX Edn.Proofs.RejectDocClj Edn.Proofs.Cmpl in
+/-- (a) `^` followed (after blanks, comments and discarded forms) by a closing delimiter:
+    INVALID_SYNTAX from the `^` to that delimiter -/
+theorem marker_without_annotation_is_error_document (cfg : Cfg) (hclj : cfg.clj = true) (opts : Opts) (hreg : opts.registry = none)
+    {cc : Bool} {pre : Bytes} {d : Nat} {dm : Bool} (k : Nat) (tr : Bytes) (c : UInt8) (rest : Bytes)
+    (hctx : DescClj cfg (0x5E :: (tr ++ c :: rest)) cc 0 false pre d dm) (hd : d + 1 + k ≤ Edn.Generated.Tables.maxNestingDepth)
+    (ht : TrailX cfg (numJOf cfg) (strJOf cfg) k tr (c :: rest)) (hc : IsCloser c) :
+    (read cfg opts (pre ++ 0x5E :: (tr ++ c :: rest))).out =
+      .error .invalidSyntax (posOf (pre ++ 0x5E :: (tr ++ c :: rest)) pre.length)
+        (posOf (pre ++ 0x5E :: (tr ++ c :: rest)) (pre.length + 1 + tr.length)) :=
+  meta_without_annotation_closer_doc cfg hclj opts hreg k tr c rest hctx hd ht hc
+
+open Edn.Proofs.RejectDoc Edn.Proofs.RejectDocX Edn.Proofs.RejectDocClj Edn.Proofs.Cmpl in
+/-- (a) `^` followed by the end of the input (blanks, comments), no collection open:
+    UNEXPECTED_EOF at the end of the input - and never the caller's end-of-input value -/
+theorem marker_without_annotation_at_end_document (cfg : Cfg) (hclj : cfg.clj = true) (opts : Opts) (hreg : opts.registry = none)
+    {pre : Bytes} {d : Nat} {dm : Bool} (s : Bytes)
+    (hctx : DescClj cfg (0x5E :: s) false 0 false pre d dm) (hd : d < Edn.Generated.Tables.maxNestingDepth)
+    (hs : skipWsScalar s = []) :
+    (read cfg opts (pre ++ 0x5E :: s)).out =
+      .error .unexpectedEof (posOf (pre ++ 0x5E :: s) (pre ++ 0x5E :: s).length) (posOf (pre ++ 0x5E :: s) (pre ++ 0x5E :: s).length) :=
+  meta_without_annotation_eof_doc cfg hclj opts hreg s hctx hd hs
+
+open Edn.Proofs.RejectDoc Edn.Proofs.RejectDocX Edn.Proofs.RejectDocClj Edn.Proofs.Cmpl in
+/-- (b) `^annotation` (a complete form of an annotation kind) followed by a closing delimiter:
+    INVALID_SYNTAX from the `^` to that delimiter -/
+theorem marker_without_target_is_error_document (cfg : Cfg) (hclj : cfg.clj = true) (opts : Opts) (hreg : opts.registry = none)
+    {cc : Bool} {pre : Bytes} {d : Nat} {dm : Bool} (k : Nat) (am : Val) (nks nvs : List Val) (tokm tr : Bytes) (c : UInt8) (rest : Bytes)
+    (hctx : DescClj cfg (0x5E :: (tokm ++ (tr ++ c :: rest))) cc 0 false pre d dm)
+    (hd : d + 1 + k ≤ Edn.Generated.Tables.maxNestingDepth)
+    (hm : FX cfg k am tokm (tr ++ c :: rest)) (he : metaEntriesC am = some (nks, nvs))
+    (ht : TrailX cfg (numJOf cfg) (strJOf cfg) k tr (c :: rest)) (hc : IsCloser c) :
+    (read cfg opts (pre ++ 0x5E :: (tokm ++ (tr ++ c :: rest)))).out =
+      .error .invalidSyntax (posOf (pre ++ 0x5E :: (tokm ++ (tr ++ c :: rest))) pre.length)
+        (posOf (pre ++ 0x5E :: (tokm ++ (tr ++ c :: rest))) (pre.length + 1 + tokm.length + tr.length)) :=
+  meta_without_target_closer_doc cfg hclj opts hreg k am nks nvs tokm tr c rest hctx hd hm he ht hc
+
+open Edn.Proofs.RejectDoc Edn.Proofs.RejectDocX Edn.Proofs.RejectDocClj Edn.Proofs.Cmpl in
+/-- (b) `^annotation` followed by the end of the input, no collection open: UNEXPECTED_EOF at the
+    end of the input -/
+theorem marker_without_target_at_end_document (cfg : Cfg) (hclj : cfg.clj = true) (opts : Opts) (hreg : opts.registry = none)
+    {pre : Bytes} {d : Nat} {dm : Bool} (k : Nat) (am : Val) (nks nvs : List Val) (tokm s : Bytes)
+    (hctx : DescClj cfg (0x5E :: (tokm ++ s)) false 0 false pre d dm) (hd : d + 1 + k ≤ Edn.Generated.Tables.maxNestingDepth)
+    (hm : FX cfg k am tokm s) (he : metaEntriesC am = some (nks, nvs)) (hs : skipWsScalar s = []) :
+    (read cfg opts (pre ++ 0x5E :: (tokm ++ s))).out =
+      .error .unexpectedEof (posOf (pre ++ 0x5E :: (tokm ++ s)) (pre ++ 0x5E :: (tokm ++ s)).length)
+        (posOf (pre ++ 0x5E :: (tokm ++ s)) (pre ++ 0x5E :: (tokm ++ s)).length) :=
+  meta_without_target_eof_doc cfg hclj opts hreg k am nks nvs tokm s hctx hd hm he hs
+
+open Edn.Proofs.RejectDoc Edn.Proofs.RejectDocX Edn.Proofs.RejectDocClj Edn.Proofs.Cmpl in
+/-- (c) `^annotation form` where the form cannot carry metadata (a number, string, keyword,
+    character, nil, boolean): INVALID_SYNTAX from the `^` to the end of that form -/
+theorem metadata_on_non_target_is_error_document (cfg : Cfg) (hclj : cfg.clj = true) (opts : Opts) (hreg : opts.registry = none)
+    {cc : Bool} {pre : Bytes} {d : Nat} {dm : Bool} (k : Nat) (am af : Val) (nks nvs : List Val) (tokm tokf rest : Bytes)
+    (hctx : DescClj cfg (0x5E :: (tokm ++ (tokf ++ rest))) cc 0 false pre d dm)
+    (hd : d + 1 + k ≤ Edn.Generated.Tables.maxNestingDepth)
+    (hm : FX cfg k am tokm (tokf ++ rest)) (he : metaEntriesC am = some (nks, nvs))
+    (hf : FX cfg k af tokf rest) (ht : af.metaTarget = false) :
+    (read cfg opts (pre ++ 0x5E :: (tokm ++ (tokf ++ rest)))).out =
+      .error .invalidSyntax (posOf (pre ++ 0x5E :: (tokm ++ (tokf ++ rest))) pre.length)
+        (posOf (pre ++ 0x5E :: (tokm ++ (tokf ++ rest))) (pre.length + 1 + tokm.length + tokf.length)) :=
+  meta_bad_target_doc cfg hclj opts hreg k am af nks nvs tokm tokf rest hctx hd hm he hf ht
+
+open Edn.Proofs.RejectDoc Edn.Proofs.RejectDocX Edn.Proofs.RejectDocClj Edn.Proofs.Cmpl in
+/-- (d) `^x` where `x` is a complete form that is not a map, keyword, string, symbol or vector:
+    INVALID_SYNTAX from the `^` to the end of `x` -/
+theorem metadata_of_wrong_kind_is_error_document (cfg : Cfg) (hclj : cfg.clj = true) (opts : Opts) (hreg : opts.registry = none)
+    {cc : Bool} {pre : Bytes} {d : Nat} {dm : Bool} (k : Nat) (ax : Val) (tokx rest : Bytes)
+    (hctx : DescClj cfg (0x5E :: (tokx ++ rest)) cc 0 false pre d dm) (hd : d + 1 + k ≤ Edn.Generated.Tables.maxNestingDepth)
+    (hx : FX cfg k ax tokx rest) (he : metaEntriesC ax = none) :
+    (read cfg opts (pre ++ 0x5E :: (tokx ++ rest))).out =
+      .error .invalidSyntax (posOf (pre ++ 0x5E :: (tokx ++ rest)) pre.length)
+        (posOf (pre ++ 0x5E :: (tokx ++ rest)) (pre.length + 1 + tokx.length)) :=
+  meta_bad_annotation_doc cfg hclj opts hreg k ax tokx rest hctx hd hx he
+
+open Edn.Proofs.RejectDoc Edn.Proofs.RejectDocX Edn.Proofs.RejectDocClj Edn.Proofs.Cmpl in
+/-- (e) `#:ns/name`: a qualified keyword as the prefix - INVALID_SYNTAX from the `#` to the end of
+    the keyword -/
+theorem namespaced_map_qualified_prefix_is_error_document (cfg : Cfg) (hclj : cfg.clj = true) (opts : Opts)
+    (hreg : opts.registry = none) {cc : Bool} {pre : Bytes} {d : Nat} {dm : Bool} (q ns nm rest : Bytes)
+    (hctx : DescClj cfg (0x23 :: 0x3A :: (q ++ rest)) cc 0 false pre d dm) (hd : d < Edn.Generated.Tables.maxNestingDepth)
+    (hl : IdentLex (0x3A :: q)) (hden : IdentDenotes (0x3A :: q) (.kw hdr0 (some ns) nm)) (hsep : DelimStart rest) :
+    (read cfg opts (pre ++ 0x23 :: 0x3A :: (q ++ rest))).out =
+      .error .invalidSyntax (posOf (pre ++ 0x23 :: 0x3A :: (q ++ rest)) pre.length)
+        (posOf (pre ++ 0x23 :: 0x3A :: (q ++ rest)) (pre.length + 2 + q.length)) :=
+  nsmap_qualified_prefix_doc cfg hclj opts hreg q ns nm rest hctx hd hl hden hsep
+
+open Edn.Proofs.RejectDoc Edn.Proofs.RejectDocX Edn.Proofs.RejectDocClj Edn.Proofs.Cmpl in
+/-- (e) `#:name`, blanks, and a byte other than `{`: INVALID_SYNTAX from the `#` to that byte -/
+theorem namespaced_map_without_brace_is_error_document (cfg : Cfg) (hclj : cfg.clj = true) (opts : Opts)
+    (hreg : opts.registry = none) {cc : Bool} {pre : Bytes} {d : Nat} {dm : Bool} (name tr : Bytes) (c : UInt8) (rest : Bytes)
+    (hctx : DescClj cfg (0x23 :: 0x3A :: (name ++ (tr ++ c :: rest))) cc 0 false pre d dm)
+    (hd : d < Edn.Generated.Tables.maxNestingDepth)
+    (hl : IdentLex (0x3A :: name)) (hden : IdentDenotes (0x3A :: name) (.kw hdr0 none name))
+    (ht : Blank tr) (hsep : DelimStart (tr ++ c :: rest)) (hw : isPreWs c = false) (hc : c ≠ 0x7B) :
+    (read cfg opts (pre ++ 0x23 :: 0x3A :: (name ++ (tr ++ c :: rest)))).out =
+      .error .invalidSyntax (posOf (pre ++ 0x23 :: 0x3A :: (name ++ (tr ++ c :: rest))) pre.length)
+        (posOf (pre ++ 0x23 :: 0x3A :: (name ++ (tr ++ c :: rest))) (pre.length + 2 + name.length + tr.length)) :=
+  nsmap_without_brace_doc cfg hclj opts hreg name tr c rest hctx hd hl hden ht hsep hw hc
+
+open Edn.Proofs.RejectDoc Edn.Proofs.RejectDocX Edn.Proofs.RejectDocClj Edn.Proofs.Cmpl in
+/-- (e) `#:name` and blanks end the input: INVALID_SYNTAX from the `#` to the end of the input,
+    whatever is open (neither UNEXPECTED_EOF nor UNTERMINATED_COLLECTION) -/
+theorem namespaced_map_prefix_at_end_is_error_document (cfg : Cfg) (hclj : cfg.clj = true) (opts : Opts)
+    (hreg : opts.registry = none) {cc : Bool} {pre : Bytes} {d : Nat} {dm : Bool} (name tr : Bytes)
+    (hctx : DescClj cfg (0x23 :: 0x3A :: (name ++ tr)) cc 0 false pre d dm) (hd : d < Edn.Generated.Tables.maxNestingDepth)
+    (hl : IdentLex (0x3A :: name)) (hden : IdentDenotes (0x3A :: name) (.kw hdr0 none name)) (ht : Blank tr) :
+    (read cfg opts (pre ++ 0x23 :: 0x3A :: (name ++ tr))).out =
+      .error .invalidSyntax (posOf (pre ++ 0x23 :: 0x3A :: (name ++ tr)) pre.length)
+        (posOf (pre ++ 0x23 :: 0x3A :: (name ++ tr)) (pre.length + 2 + name.length + tr.length)) :=
+  nsmap_prefix_at_end_doc cfg hclj opts hreg name tr hctx hd hl hden ht
+
+open Edn.Proofs.RejectDoc Edn.Proofs.RejectDocX Edn.Proofs.RejectDocClj Edn.Proofs.Cmpl in
+/-- (f) a discarded form must be well-formed: the error `e` that the form behind `#_` raises (one
+    level deeper, in discard mode - any of the defect sites (a)-(e) of `Edn.Proofs.RejectDocClj3`)
+    is the error of the document -/
+theorem defect_in_discarded_form_is_error_document (cfg : Cfg) (hclj : cfg.clj = true) (opts : Opts) (hreg : opts.registry = none)
+    {cc : Bool} {pre : Bytes} {d : Nat} {dm : Bool} (s : Bytes)
+    (hctx : DescClj cfg (0x23 :: 0x5F :: s) cc 0 false pre d dm) (hd : d < Edn.Generated.Tables.maxNestingDepth)
+    (e : ErrInfo) (r : Bytes) (hs : SiteErrX cfg opts (d + 1) true s e r)
+    (hc : cc = false ∨ e.code ≠ .unexpectedEof) (hf : e.fuelOut = false)
+    (hn : (e.code == .unexpectedEof && e.eofTop && opts.eofValue) = false) :
+    (read cfg opts (pre ++ 0x23 :: 0x5F :: s)).out =
+      .error e.code (posOf (pre ++ 0x23 :: 0x5F :: s) ((pre ++ 0x23 :: 0x5F :: s).length - e.es.getD r.length))
+        (posOf (pre ++ 0x23 :: 0x5F :: s) ((pre ++ 0x23 :: 0x5F :: s).length - e.ee.getD r.length)) :=
+  defect_in_discarded_form_doc cfg hclj opts hreg s hctx hd e r hs hc hf hn
+
+open Edn.Proofs.RejectDoc Edn.Proofs.RejectDocX Edn.Proofs.RejectDocClj Edn.Proofs.Cmpl in
+/-- (f) spelled out for (c): `#_ ^annotation non-target` is INVALID_SYNTAX from the `^` to the end
+    of the would-be target, although the whole form was to be discarded -/
+theorem discarded_metadata_on_non_target_is_error_document (cfg : Cfg) (hclj : cfg.clj = true) (opts : Opts)
+    (hreg : opts.registry = none) {cc : Bool} {pre : Bytes} {d : Nat} {dm : Bool}
+    (k : Nat) (am af : Val) (nks nvs : List Val) (tokm tokf rest : Bytes)
+    (hctx : DescClj cfg (0x23 :: 0x5F :: 0x5E :: (tokm ++ (tokf ++ rest))) cc 0 false pre d dm)
+    (hd : d + 2 + k ≤ Edn.Generated.Tables.maxNestingDepth)
+    (hm : FX cfg k am tokm (tokf ++ rest)) (he : metaEntriesC am = some (nks, nvs))
+    (hf : FX cfg k af tokf rest) (ht : af.metaTarget = false) :
+    (read cfg opts (pre ++ 0x23 :: 0x5F :: 0x5E :: (tokm ++ (tokf ++ rest)))).out =
+      .error .invalidSyntax (posOf (pre ++ 0x23 :: 0x5F :: 0x5E :: (tokm ++ (tokf ++ rest))) (pre.length + 2))
+        (posOf (pre ++ 0x23 :: 0x5F :: 0x5E :: (tokm ++ (tokf ++ rest))) (pre.length + 3 + tokm.length + tokf.length)) :=
+  discarded_meta_bad_target_doc cfg hclj opts hreg k am af nks nvs tokm tokf rest hctx hd hm he hf ht
+
+/-- concrete documents: code, start offset and end offset of the reported error -/
+def cljErrIs (r : Result) (code : Err) (so eo : Nat) : Bool :=
+  match r.out with
+  | .error c es ee => c == code && es.offset == so && ee.offset == eo
+  | _ => false
+
+/-- (a) `[^]`, (b) `[^:a]`, (c) `^:a 5`, (d) `^5 [1]`, (e) `#:a [1]`, (f) `#_ ^:k 5 7`, with and
+    without the experimental flag -/
+example : cljErrIs (read ⟨true, false⟩ {} "[^]".toUTF8.toList) .invalidSyntax 1 2 = true := by decide +kernel
+example : cljErrIs (read ⟨true, false⟩ {} "[^:a]".toUTF8.toList) .invalidSyntax 1 4 = true := by decide +kernel
+example : cljErrIs (read ⟨true, false⟩ {} "^:a 5".toUTF8.toList) .invalidSyntax 0 5 = true := by decide +kernel
+example : cljErrIs (read ⟨true, false⟩ {} "^5 [1]".toUTF8.toList) .invalidSyntax 0 2 = true := by decide +kernel
+example : cljErrIs (read ⟨true, false⟩ {} "#:a [1]".toUTF8.toList) .invalidSyntax 0 4 = true := by decide +kernel
+example : cljErrIs (read ⟨true, false⟩ {} "#_ ^:k 5 7".toUTF8.toList) .invalidSyntax 3 8 = true := by decide +kernel
+example : cljErrIs (read ⟨true, true⟩ {} "[^]".toUTF8.toList) .invalidSyntax 1 2 = true := by decide +kernel
+example : cljErrIs (read ⟨true, true⟩ {} "#_ ^:k 5 7".toUTF8.toList) .invalidSyntax 3 8 = true := by decide +kernel
+example : cljErrIs (read ⟨true, false⟩ {} "^".toUTF8.toList) .unexpectedEof 1 1 = true := by decide +kernel
+example : cljErrIs (read ⟨true, false⟩ { eofValue := true } "^:a ;c".toUTF8.toList) .unexpectedEof 6 6 = true := by decide +kernel
+example : cljErrIs (read ⟨true, false⟩ {} "#:a/b{}".toUTF8.toList) .invalidSyntax 0 5 = true := by decide +kernel
+example : cljErrIs (read ⟨true, false⟩ {} "[#:a ".toUTF8.toList) .invalidSyntax 1 5 = true := by decide +kernel
+example : cljErrIs (read ⟨true, false⟩ {} "#:a{:b ^}".toUTF8.toList) .invalidSyntax 7 8 = true := by decide +kernel
+
+/-- the hypotheses are satisfiable, and the theorem at work: `[^:a]` - the context is the open
+    vector, the annotation `:a` is a form of the grammar of an annotation kind, `]` follows -/
+example : (read ⟨true, false⟩ {} [0x5B, 0x5E, 0x3A, 0x61, 0x5D]).out =
+    .error .invalidSyntax (Edn.Proofs.RejectDoc.posOf [0x5B, 0x5E, 0x3A, 0x61, 0x5D] 1)
+      (Edn.Proofs.RejectDoc.posOf [0x5B, 0x5E, 0x3A, 0x61, 0x5D] 4) := by
+  obtain ⟨k, am, hk, hm, hp⟩ := Edn.Proofs.RejectDocClj.fx_of_read ⟨true, false⟩ 20 2 false [0x3A, 0x61] [0x5D] (by decide)
+    (fun a => (metaEntriesC a).isSome) (by decide +kernel)
+  obtain ⟨⟨nks, nvs⟩, he⟩ := Option.isSome_iff_exists.mp hp
+  have hctx : Edn.Proofs.RejectDocClj.DescClj ⟨true, false⟩ (0x5E :: ([0x3A, 0x61] ++ ([] ++ 0x5D :: []))) true 0 false
+      (Edn.Proofs.RejectDoc.opener 1 ++ ([] ++ [])) 1 false :=
+    .coll 0 false 1 0 0 [] [] 1 false (by decide) (.nil 0 _) (.here true 1 false)
+  exact marker_without_target_is_error_document ⟨true, false⟩ rfl {} rfl k am nks nvs [0x3A, 0x61] [] 0x5D [] hctx (by omega) hm he
+    (.blank k [] _ .nil) (.inr (.inl rfl))
 
 end Edn.Properties.C19
